@@ -9,6 +9,8 @@ CONSTANTS
   Kinds = {"node", "rpc", "metrics"}
   MaxCalls = 12
   WideView = TRUE
+  EnvActions = FALSE
+  Offsets2 = {}
 VIEW View
 INVARIANTS TypeOK Emit
 CHECK_DEADLOCK FALSE
